@@ -4,13 +4,13 @@ use crate::support::*;
 use educe::Educe;
 use core::cmp::Ordering;
 #[derive(Educe)]
-#[educe(PartialEq, Eq, Ord)]
-pub enum T { V1 }
-impl PartialOrd for T { fn partial_cmp(&self, o: &Self) -> Option<Ordering> { Some(::core::cmp::Ord::cmp(self, o)) } }
-pub fn values() -> Vec<T> { vec![T::V1] }
-pub fn show(x: &T) -> String { #[allow(unused_variables)] match x { T::V1 => format!("V1()") } }
-pub fn o_disc(x: &T) -> i128 { match x { T::V1 => 0 } }
-pub fn o_cmp(a: &T, b: &T) -> Ordering { match (a, b) { (T::V1, T::V1) => {  Ordering::Equal } } }
+#[educe(PartialOrd, Ord, PartialEq, Eq)]
+pub enum T { A(&'static u8, #[educe(PartialOrd(rank = 0))] ()), Unit { #[educe(PartialOrd(rank = "7"))] _0: &'static u8, #[educe(PartialOrd(rank = 5i64))] c: Option<u8>, #[educe(PartialOrd(rank("8")))] r#type: &'static u8 } }
+
+pub fn values() -> Vec<T> { vec![T::A(&3u8, ()), T::A(&200u8, ()), T::Unit { _0: &3u8, c: None, r#type: &3u8 }, T::Unit { _0: &3u8, c: None, r#type: &200u8 }, T::Unit { _0: &3u8, c: Some(0), r#type: &3u8 }, T::Unit { _0: &3u8, c: Some(0), r#type: &200u8 }, T::Unit { _0: &3u8, c: Some(255), r#type: &3u8 }, T::Unit { _0: &3u8, c: Some(255), r#type: &200u8 }, T::Unit { _0: &200u8, c: None, r#type: &3u8 }, T::Unit { _0: &200u8, c: None, r#type: &200u8 }, T::Unit { _0: &200u8, c: Some(0), r#type: &3u8 }, T::Unit { _0: &200u8, c: Some(0), r#type: &200u8 }, T::Unit { _0: &200u8, c: Some(255), r#type: &3u8 }, T::Unit { _0: &200u8, c: Some(255), r#type: &200u8 }] }
+pub fn show(x: &T) -> String { #[allow(unused_variables)] match x { T::A(p0, p1) => format!("A({},{})", sv(p0), sv(p1)), T::Unit { _0: p0, c: p1, r#type: p2 } => format!("Unit({},{},{})", sv(p0), sv(p1), sv(p2)) } }
+pub fn o_disc(x: &T) -> i128 { match x { T::A(_, _) => 0, T::Unit { _0: _, c: _, r#type: _ } => 1 } }
+pub fn o_cmp(a: &T, b: &T) -> Ordering { match (a, b) { (T::A(a0, a1), T::A(b0, b1)) => { let c = ::core::cmp::Ord::cmp(a0, b0); if c != Ordering::Equal { return c; } let c = ::core::cmp::Ord::cmp(a1, b1); if c != Ordering::Equal { return c; } Ordering::Equal }, (T::Unit { _0: a0, c: a1, r#type: a2 }, T::Unit { _0: b0, c: b1, r#type: b2 }) => { let c = ::core::cmp::Ord::cmp(a1, b1); if c != Ordering::Equal { return c; } let c = ::core::cmp::Ord::cmp(a0, b0); if c != Ordering::Equal { return c; } let c = ::core::cmp::Ord::cmp(a2, b2); if c != Ordering::Equal { return c; } Ordering::Equal }, _ => o_disc(a).cmp(&o_disc(b)) } }
 #[repr(C)] pub struct Wrap { pub pre: u8, pub x: T, pub post: [u8; 9] }
 pub fn wrap(i: usize, n: u8) -> Wrap { Wrap { pre: n, x: values().swap_remove(i), post: [n; 9] } }
-pub fn run(out: &mut Out) { let vs = values(); for (i, a) in vs.iter().enumerate() { for (j, b) in vs.iter().enumerate() { let e = o_cmp(a, b); let g = ::core::cmp::Ord::cmp(a, b); out.check(g == e, "ordlayout_0", "cmp", || format!("cmp({}, {}) = {:?} expected {:?}", show(a), show(b), g, e)); for n in [0u8, 1, 0x7f, 0x80, 0xff] { let wa = wrap(i, n); let wb = wrap(j, !n); let g = ::core::cmp::Ord::cmp(&wa.x, &wb.x); let e = o_cmp(a, b); out.check(g == e, "ordlayout_0", "cmp_neighbours", || format!("cmp({}, {}) with neighbour bytes {} = {:?} expected {:?}", show(a), show(b), n, g, e)); } } } }
+pub fn run(out: &mut Out) { let vs = values(); for (i, a) in vs.iter().enumerate() { for (j, b) in vs.iter().enumerate() { let e = o_cmp(a, b); let g = ::core::cmp::Ord::cmp(a, b); out.check(g == e, "ordlayout_0", "cmp", || format!("cmp({}, {}) = {:?} expected {:?}", show(a), show(b), g, e)); let g2 = ::core::cmp::PartialOrd::partial_cmp(a, b); out.check(g2 == Some(e), "ordlayout_0", "partial_is_some_cmp", || format!("partial_cmp({}, {}) = {:?} expected Some({:?})", show(a), show(b), g2, e)); for n in [0u8, 1, 0x7f, 0x80, 0xff] { let wa = wrap(i, n); let wb = wrap(j, !n); let g = ::core::cmp::Ord::cmp(&wa.x, &wb.x); let e = o_cmp(a, b); out.check(g == e, "ordlayout_0", "cmp_neighbours", || format!("cmp({}, {}) with neighbour bytes {} = {:?} expected {:?}", show(a), show(b), n, g, e)); } } } }
